@@ -172,22 +172,26 @@ def direct_oracles(ctx, s, labels, inst, desc, stream, found):
 
 
 def drift_check(ctx):
-    """Which modelled methods changed (normalised ast digest) since the hand model was written against them.
-    A changed digest of a modelled method is a BROKEN TIE (the hand model may be stale): after the search it
-    is reported as a violation, with found_input=False when the search found nothing."""
+    """Is validate() still the text the hand model was written against?  Compared: the digest of the flattened,
+    normalised closure of validate() (translator/c19_astnorm.py; robust against extracted/merged helpers, renamed
+    or single-use locals, De Morgan, unrolled literal loops, reworded messages).  A difference is a BROKEN TIE: after
+    the search it is reported as a violation (found_input=False when the search found nothing).  The per-method
+    digests only help to locate the change."""
     import re
     try:
         with open(os.path.join(vlib.COQ, 'Gen', 'SettingsTables.v')) as f:
             g = f.read()
         m = re.search(r'Definition gen_digests : [^\n]*:= \[(.*?)\]\.\n', g, flags=re.S)
         now = dict(re.findall(r'\("([^"]+)", "([^"]+)"\)', m.group(1)))
+        now['__closure__'] = re.search(r'Definition gen_closure_digest : string := "([0-9a-f]+)"', g).group(1)
         with open(os.path.join(os.path.dirname(os.path.abspath(M.__file__)), 'c19_digests.json')) as f:
             old = json.load(f)
-        changed = sorted(k for k in set(now) | set(old) if now.get(k) != old.get(k))
         ctx.cov['source_digests'] = now
-        if changed:
-            ctx.log('model drift: modelled methods changed: %s' % changed)
-        return changed
+        if now['__closure__'] == old.get('__closure__'):
+            return []
+        changed = sorted(k for k in set(now) | set(old) if now.get(k) != old.get(k) and k != '__closure__')
+        ctx.log('model drift: normal form of validate() changed; methods with a different text: %s' % changed)
+        return changed or ['validate() closure']
     except Exception as e:  # noqa
         return ['digest comparison unavailable: %r' % (e,)]
 
@@ -283,6 +287,7 @@ def run(ctx):
             tie_broken = tie_broken or ('supported evaluation failed: ' + e[:400])
         for i in bad_s[:3]:
             tie_broken = tie_broken or 'Coq supported_only spec and Python oracle disagree on a validated object'
+        ctx.log('model-vs-impl and spec cross-checks evaluated (vm_compute)')
         ctx.count('spec-crosscheck(vm_compute)', len(dl) + len(sl_), [('domain', len(dl) - len(bad_d)), ('supported', len(sl_) - len(bad_s))])
     elif not res['model_ok']:
         tie_broken = tie_broken or ('model does not compile: %s' % res['failing'])
@@ -311,7 +316,7 @@ def run(ctx):
 def replay(ctx, path):
     with open(path) as f:
         r = json.load(f)
-    if 'pair' in r:
+    if 'pair' in r and 'settings' not in r:
         import c19_pairs
         return c19_pairs.replay_pair(r)
     s = M.rebuild(r['settings'])
